@@ -1,5 +1,6 @@
 //! egverif — bounded exhaustive verification harness for embedded-graphics (see /verif/DESIGN.md)
 pub mod catalog;
+pub mod colors;
 pub mod fw;
 pub mod imgs;
 pub mod targets;
